@@ -33,7 +33,7 @@ Definition IQ (gs : list zgate) (w : Z) : string := iq_case gtables ionq_tbl (FC
 Definition PQ (gs : list zgate) (w : Z) : string := pq_case gtables pq_tbl (FCirc gs w).
 Definition IQR (q : Z) (rs : list (irec Z)) : string := iq_read_case gtables ionq_tbl (IJson q rs).
 Definition PQR (ls : list (pqline Z)) : string := pq_read_case gtables pq_tbl ls.
-Definition RP (g : zgate) : string := repr_case gtables g.
+Definition RP (g : zgate) : string := repr_case gtables repr_tbl g.
 """
 
 FORMATS = ("ionq", "projectq")
@@ -45,18 +45,28 @@ ASIS = {
         ("C17_pq_PHASE_asis.v", "C17_pq_PHASE_repaired.v",
          ("projectq", [dict(name="PHASE", target=[0], control=None, k=4)], None)),
     "C17/projectq/MEASURE-dropped-by-reader":
-        ("C17_pq_MEASURE_asis.v", None,
+        ("C17_pq_MEASURE_asis.v", "C17_pq_MEASURE_repaired.v",
          ("projectq", [dict(name="H", target=[0], control=None, k=None),
                        dict(name="MEASURE", target=[0], control=None, k=None)], None)),
     "C17/projectq/CNOT-extra-controls-dropped":
         ("C17_pq_CNOT_asis.v", "C17_pq_CNOT_repaired.v",
          ("projectq", [dict(name="CNOT", target=[0], control=[1, 2], k=None)], None)),
     "C17/projectq/width-not-restored":
-        ("C17_pq_width_asis.v", None, ("projectq", [dict(name="H", target=[0], control=None, k=None)], 4)),
+        ("C17_pq_width_asis.v", "C17_pq_width_repaired.v",
+         ("projectq", [dict(name="H", target=[0], control=None, k=None)], 4)),
     "C17/ionq/controlled-kind-without-control-read-as-uncontrolled":
-        ("C17_ionq_nocontrol_asis.v", None, ("ionq", [dict(name="CNOT", target=[1], control=None, k=None)], None)),
+        ("C17_ionq_nocontrol_asis.v", "C17_ionq_nocontrol_repaired.v",
+         ("ionq", [dict(name="CNOT", target=[1], control=None, k=None)], None)),
+    "C17/projectq/MEASURE-target-altered":
+        ("C17_pq_MEASURE_multitarget_asis.v", None,
+         ("projectq", [dict(name="MEASURE", target=[2, 0], control=None, k=None)], None)),
+    "C17/repr/empty-target-omitted":
+        ("C17_repr_target_asis.v", "C17_repr_repaired.v", ("repr", dict(name="FOO", target=[], control=None, k=None), None)),
+    "C17/repr/empty-control-read-as-None":
+        ("C17_repr_control_asis.v", "C17_repr_repaired.v", ("repr", dict(name="CX", target=[0], control=[], k=None), None)),
 }
-PQ_TABLE_DEFECTS = ["C17/projectq/PHASE-written-as-R", "C17/projectq/MEASURE-dropped-by-reader"]
+PQ_TABLE_DEFECTS = ["C17/projectq/PHASE-written-as-R", "C17/projectq/MEASURE-dropped-by-reader",
+                    "C17/projectq/width-not-restored"]
 FALLBACK = {"GateTables": VERIF / "translator" / "expected" / "C17_GateTables.v",
             "FormatTables": VERIF / "translator" / "expected" / "C17_FormatTables.v"}
 
@@ -460,7 +470,7 @@ def run_format_streams(ck, fmt, decl):
              ([dict(name="X", target=[0], control=None, k=None), dict(name="CNOT", target=[1], control=[0], k=None),
                dict(name="RZ", target=[1], control=None, k=5), dict(name="PHASE", target=[0], control=None, k=2)], None)]
     for sig, (_f, _r, (wfmt, specs, nq)) in ASIS.items():
-        if wfmt == fmt:
+        if wfmt == fmt and wfmt != "repr":
             fixed.append((specs, nq))
     for specs, nq in fixed:
         cases.append(("%s-circuits" % fmt, specs, nq))
@@ -922,8 +932,19 @@ def run(ck):
                 decls[f] = set()
         for sig, (_asis, _rep, (fmt, specs, nq)) in ASIS.items():
             try:
-                r = roundtrip(fmt, mk_circuit(specs, nq))
-                present[sig] = r["stage"] == "altered" or (r["stage"] == "reader-raised")
+                if fmt == "repr":
+                    import sympy  # noqa: F401  (name used by the printed form of Symbol parameters)
+                    from tangelo.linq import Gate  # noqa: F401
+                    g = mk_gate(specs)
+                    try:
+                        present[sig] = not sem_gate_equal(g, eval(repr(g)))
+                    except Exception:
+                        present[sig] = True
+                else:
+                    r = roundtrip(fmt, mk_circuit(specs, nq))
+                    present[sig] = r["stage"] == "altered" or (r["stage"] == "reader-raised")
+                    if sig.endswith("-target-altered"):      # the gate must come back (on fewer targets), not vanish
+                        present[sig] = r["stage"] == "altered" and len(r["back"]._gates) == len(specs)
             except Exception:
                 present[sig] = True
         ck.notes["recorded_defects_present"] = present
@@ -964,11 +985,13 @@ def prove_all(ck, present):
     if not res.ok:
         ck.proof_violation(res)
     variants = {}
+    done = set()
     for sig, (asis, repaired, _w) in ASIS.items():
         fname = asis if present.get(sig, True) else repaired
         variants[sig] = "as-is (%s)" % asis if present.get(sig, True) else ("repaired (%s)" % repaired if repaired else "defect not shown; no repaired variant")
-        if fname is None:
+        if fname is None or fname in done:
             continue
+        done.add(fname)
         r2 = ck.prove(props_file=COQ / "props" / fname)
         if not r2.ok:
             ck.proof_violation(r2, "(variant %s for %s: the model does not match what the implementation does now)" % (fname, sig))
@@ -982,8 +1005,10 @@ def prove_all(ck, present):
     ck.notes["variants"] = variants
     ck.notes["theorem_status"] = {
         "C17_ionq_roundtrip": "full", "C17_ionq_roundtrip_variational": "full", "C17_writers_refuse_unsupported": "full",
-        "C17_repr_fields_roundtrip": "full under non-empty target / control lists (refuted outside: C17_repr_refuted_*)",
-        "C17_projectq_roundtrip_partial": "partial (surviving kinds, one target, one control, no idle qubits)",
+        "C17_repr_fields_roundtrip": "full when target/control are printed when not None (regenerated rp_when_not_none; "
+                                     "C17_repr_fields_roundtrip_all), else under non-empty target / control lists",
+        "C17_projectq_roundtrip_partial": "over the regenerated guards pq_survives / pq_restores_width; full statement "
+                                          "C17_projectq_roundtrip in props/C17_pq_repaired.v when no ProjectQ defect is shown",
         "clauses without a theorem": ["cirq operator conversion (openfermion / cirq code; oracle only)",
                                       "OpenQASM reader (writer needs qiskit)"]}
 
